@@ -471,14 +471,94 @@ def run(ctx):
             return fn(node)
         return orig_rfg(graph, fn2, **kw)
 
+    # the model-free scenarios first: they do not depend on the instrumentation below
+    shared_plan(ctx, uberjob)
+    one_shot(ctx, uberjob)
+    timing(ctx, uberjob)
     Plan._call, Plan.lit, rp.run_function_on_graph = w_call, w_lit, w_rfg
     try:
         _run(ctx, uberjob, Plan, Node, Call, Literal, PositionalArg, KeywordArg, _builtins, operator, state)
     finally:
         Plan._call, Plan.lit, rp.run_function_on_graph = orig_call, orig_lit, orig_rfg
     sentinel(ctx)
-    one_shot(ctx, uberjob)
-    timing(ctx, uberjob)
+
+
+def shared_plan(ctx, uberjob):
+    """One Plan object used by several runs AT ONCE (two user threads; a call function that itself runs the same plan): every
+    run returns the directly evaluated value - nothing about a run lives in the plan or its nodes."""
+    for mode in ("two-threads", "re-entrant"):
+        for workers in (1, 3):
+            gate = threading.Barrier(2, timeout=10)
+            state = {"inner": None, "depth": 0}
+            plan = uberjob.Plan()
+
+            def slow(v):
+                if mode == "two-threads":
+                    try:
+                        gate.wait()             # both runs are inside this call at the same time
+                    except threading.BrokenBarrierError:
+                        pass
+                return v + 1
+
+            def maybe_reenter(v):
+                if mode == "re-entrant" and state["depth"] == 0:
+                    state["depth"] = 1
+                    try:
+                        state["inner"] = uberjob.run(plan, output=out, max_workers=workers, progress=None)
+                    finally:
+                        state["depth"] = 0
+                return v * 10
+            a = plan.call(slow, 1)
+            b = plan.call(maybe_reenter, a)
+            c = plan.call(lambda x, y: (x, y), a, b)
+            out = [c, a]
+            want = [(2, 20), 2]
+            results = {}
+
+            def runner(k):
+                try:
+                    results[k] = uberjob.run(plan, output=out, max_workers=workers, progress=None)
+                except BaseException as e:      # noqa
+                    results[k] = "raised %s: %r" % (type(e).__name__, getattr(e, "__cause__", None))
+            ths = [threading.Thread(target=runner, args=(k,), daemon=True) for k in range(2 if mode == "two-threads" else 1)]
+            for t in ths:
+                t.start()
+            for t in ths:
+                t.join(30)
+            ctx.case(("shared-plan", mode, workers))
+            got = [results.get(k, "no result (hang)") for k in range(len(ths))] + ([state["inner"]] if mode == "re-entrant" else [])
+            if any(g != want for g in got):
+                ctx.fail("shared-plan:" + mode, "one plan run %s: results %r, direct evaluation gives %r each" % (
+                    "by two threads at once" if mode == "two-threads" else "re-entrantly from one of its own calls", got, want),
+                    {"mode": mode, "max_workers": workers})
+    # the same container OBJECT occurring twice in one structure is rebuilt at both places
+    for kind in ("list", "dict", "set-of-tuples"):
+        for workers in (1, 3):
+            plan = uberjob.Plan()
+            x, y = plan.call(lambda: 1), plan.call(lambda: 2)
+            pair = [x, y] if kind == "list" else {"k": x, "l": y} if kind == "dict" else (x, y)
+            wantp = [1, 2] if kind == "list" else {"k": 1, "l": 2} if kind == "dict" else (1, 2)
+            ctx.case(("shared-container", kind, workers))
+            try:
+                got = uberjob.run(plan, output=[pair, {"again": pair}, (pair, 0)], max_workers=workers, progress=None)
+                viaarg = uberjob.run(plan, output=plan.call(lambda p, q: (p, q), [pair, pair], q=pair), max_workers=workers, progress=None)
+            except BaseException as e:      # noqa
+                got, viaarg = "raised %r" % (e,), None
+            want = [wantp, {"again": wantp}, (wantp, 0)]
+            if got != want or viaarg != ([wantp, wantp], wantp):
+                ctx.fail("shared-container", "a %s object holding nodes used twice in one structure: got %r / %r, expected %r / %r"
+                         % (kind, got, viaarg, want, ([wantp, wantp], wantp)), {"container": kind, "max_workers": workers})
+    # plan.gather of short-lived structures (ids are reused by the interpreter)
+    for workers in (1, 3):
+        plan = uberjob.Plan()
+        calls = {n: plan.call(lambda n=n: n) for n in "abcd"}
+        g1 = plan.gather([calls["a"], calls["b"]])
+        g2 = plan.gather([calls["c"], calls["d"]])
+        g3 = plan.gather({"k": calls["d"]})
+        ctx.case(("gather-temporaries", workers))
+        got = uberjob.run(plan, output=(g1, g2, g3), max_workers=workers, progress=None)
+        if got != (["a", "b"], ["c", "d"], {"k": "d"}):
+            ctx.fail("gather-temporaries", "plan.gather of three short-lived structures: run returned %r" % (got,), {"max_workers": workers})
 
 
 def one_shot(ctx, uberjob):
